@@ -952,7 +952,7 @@ def wide_sparse(h, limit=200000):
     """does the tree contain a SparselyBin whose filled indexes span more than `limit` bins?"""
     try:
         if getattr(h, "name", "") == "SparselyBin":
-            ks = list(h.bins.keys())
+            ks = [int(k) for k in h.bins.keys()]     # (numpy int64 keys: the difference would wrap)
             if ks and max(ks) - min(ks) > limit:
                 return True
         return any(wide_sparse(c, limit) for c in list(fixed_children(h)) + list(sparse_children(h)))
